@@ -85,15 +85,17 @@ Proof.
   destruct (alg_of_name (us_bytes s)); eauto.
 Qed.
 
-Lemma num_view_bounded v : num_above 32 v = false ->
-  (exists n, get_usize v = Ok n /\ n <= 32 /\ num_param 0 32 v = Some n) \/
+(** tupleSize / numberOfTuples of 0003/0004: serde reads any usize, the documents want 0..32 *)
+Lemma num_view0 v :
+  (exists n, get_usize v = Ok n /\
+     num_param 0 32 v = if n <=? 32 then Some n else None) \/
   (get_usize v = Err /\ num_param 0 32 v = None).
 Proof.
-  destruct v as [|n|s|x|]; cbn [num_above get_usize num_param]; intros H; auto.
-  - left. exists 3. repeat split; lia.
-  - left. exists n. unfold USIZE_MAX.
-    replace (n <=? 18446744073709551615) with true by lia.
-    replace ((0 <=? n) && (n <=? 32)) with true by lia. repeat split; lia.
+  destruct v as [|n|s|x|]; cbn [get_usize num_param]; auto.
+  - left. exists 3. split; reflexivity.
+  - unfold USIZE_MAX. destruct (n <=? 18446744073709551615) eqn:E.
+    + left. exists n. split; [reflexivity|]. replace (0 <=? n) with true by lia. reflexivity.
+    + right. split; [reflexivity|]. replace ((0 <=? n) && (n <=? 32)) with false by lia. reflexivity.
 Qed.
 
 Lemma num_view v :
@@ -147,37 +149,40 @@ Proof.
     rewrite alg_eqb_refl, !N.eqb_refl; cbn [andb]; try apply Bool.eqb_reflx; reflexivity.
 Qed.
 
+(** validate() of 0003/0004 against the documents' rules, for ALL numbers: bounds (fix
+    d1aca14), zero coupling, product within the digest, and for 0004 the shortObjectRoot
+    rule (fix a91c61b).  No hypothesis on the numbers: above 32 the first test of
+    validate_tuple_config refuses, so the product is never computed for large factors. *)
 Lemma validate_hashed dbg e a ts nt sh d1 d2 : e = E0003 \/ e = E0004 ->
-  ts <= 32 -> nt <= 32 -> (sh && negb (ts =? 0) && (ts * nt =? alg_hexlen a)) = false ->
   (e = E0003 -> sh = false) ->
   new_agrees (validate dbg (mkCfg e e a ts nt sh d1 true false))
-             (if tuple_rules a ts nt sh then Some (mkCfg e e a ts nt sh d2 true false) else None).
+             (if (ts <=? 32) && (nt <=? 32) && tuple_rules a ts nt sh
+              then Some (mkCfg e e a ts nt sh d2 true false) else None).
 Proof.
-  intros He L1 L2 KS H3. unfold validate, tuple_rules. cbn [c_name c_ext c_ts c_nt c_alg].
+  intros He H3. unfold validate, tuple_rules. cbn [c_name c_ext c_ts c_nt c_alg c_short].
   rewrite ext_eqb_refl. cbn [negb]. rewrite hex_chars_is_hexlen.
-  assert (G : new_agrees
-    (if ((ts =? 0) || (nt =? 0)) && (negb (ts =? 0) || negb (nt =? 0)) then Err
-     else res_bind (usize_mul dbg ts nt) (fun total => if alg_hexlen a <? total then Err else Ok (mkCfg e e a ts nt sh d1 true false)))
-    (if Bool.eqb (ts =? 0) (nt =? 0) && (ts * nt <=? alg_hexlen a) && negb (sh && (ts * nt =? alg_hexlen a))
-     then Some (mkCfg e e a ts nt sh d2 true false) else None)).
-  { assert (Hh : 32 <= alg_hexlen a) by (destruct a; cbn; lia).
-    destruct (ts =? 0) eqn:E1; destruct (nt =? 0) eqn:E2; cbn [orb andb negb Bool.eqb]; try exact I.
-    - assert (ts = 0) by lia. assert (nt = 0) by lia. subst.
-      unfold usize_mul. cbn [res_bind]. replace (0 * 0) with 0 by lia. unfold USIZE_MAX.
-      replace (0 <=? 18446744073709551615) with true by lia. cbn [res_bind].
-      replace (alg_hexlen a <? 0) with false by lia. replace (0 <=? alg_hexlen a) with true by lia.
-      replace (0 =? alg_hexlen a) with false by lia. rewrite andb_false_r. cbn [negb andb new_agrees].
-      now apply same_params_hashed.
-    - unfold usize_mul, USIZE_MAX.
-      assert (ts * nt <= 1024) by nia.
-      replace (ts * nt <=? 18446744073709551615) with true by lia. cbn [res_bind].
-      destruct (alg_hexlen a <? ts * nt) eqn:E3.
-      + replace (ts * nt <=? alg_hexlen a) with false by lia. exact I.
-      + replace (ts * nt <=? alg_hexlen a) with true by lia. cbn [andb].
-        cbn [negb] in KS. rewrite andb_true_r in KS.
-        rewrite KS. cbn [negb new_agrees].
-        now apply same_params_hashed. }
-  destruct He as [-> | ->]; exact G.
+  unfold validate_tuple_config. rewrite max_tuple_config.
+  destruct (ts <=? 32) eqn:B1; cbn [andb].
+  2:{ replace ((32 <? ts) || (32 <? nt)) with true by lia. cbn [negb]. destruct He as [-> | ->]; exact I. }
+  destruct (nt <=? 32) eqn:B2; cbn [andb].
+  2:{ replace ((32 <? ts) || (32 <? nt)) with true by lia. cbn [negb]. destruct He as [-> | ->]; exact I. }
+  replace ((32 <? ts) || (32 <? nt)) with false by lia.
+  assert (Hh : 32 <= alg_hexlen a) by (destruct a; cbn; lia).
+  unfold validate_digest_algorithm. rewrite !usize_mul_small by lia. cbn [res_bind].
+  destruct (((ts =? 0) || (nt =? 0)) && (negb (ts =? 0) || negb (nt =? 0))) eqn:E1; cbn [negb].
+  { replace (Bool.eqb (ts =? 0) (nt =? 0)) with false by (destruct (ts =? 0), (nt =? 0); cbn in *; congruence).
+    cbn [andb]. destruct He as [-> | ->]; exact I. }
+  replace (Bool.eqb (ts =? 0) (nt =? 0)) with true by (destruct (ts =? 0), (nt =? 0); cbn in *; congruence).
+  cbn [andb].
+  destruct (alg_hexlen a <? ts * nt) eqn:E3; cbn [res_bind].
+  { replace (ts * nt <=? alg_hexlen a) with false by lia. cbn [andb]. destruct He as [-> | ->]; exact I. }
+  replace (ts * nt <=? alg_hexlen a) with true by lia. cbn [andb].
+  destruct He as [-> | ->].
+  - rewrite (H3 eq_refl). cbn [andb negb new_agrees]. apply same_params_hashed. now left.
+  - destruct sh; cbn [andb negb].
+    + replace (alg_hexlen a =? ts * nt) with (ts * nt =? alg_hexlen a) by lia.
+      destruct (ts * nt =? alg_hexlen a); cbn [negb new_agrees]; [exact I|]. apply same_params_hashed. now right.
+    + cbn [new_agrees]. apply same_params_hashed. now right.
 Qed.
 
 (** * the five extensions, object form *)
@@ -195,41 +200,41 @@ Proof.
   - rewrite validate_bad_name by exact He'. exact I.
 Qed.
 
-Lemma new_obj_0004 dbg o : known_c11_cfg E0004 (RawObj o) = false ->
-  new_agrees (new dbg E0004 (RawObj o)) (parse E0004 (RawObj o)).
+Ltac use_num0 v n := let H1 := fresh "Hn" in let H2 := fresh "Hn'" in
+  destruct (num_view0 v) as [(n & H1 & H2) | [H1 H2]]; rewrite H1, ?H2; cbn [res_bind opt_bind].
+
+Lemma new_obj_0004 dbg o : new_agrees (new dbg E0004 (RawObj o)) (parse E0004 (RawObj o)).
 Proof.
-  unfold known_c11_cfg, c11_cfg_bounds, c11_cfg_short_root, c11_cfg_0007_defaults, c11_cfg_array.
-  rewrite !orb_false_r. intros Kn. apply orb_false_iff in Kn as [Kb Ks]. apply orb_false_iff in Kb as [Kb1 Kb2].
   unfold new, parse, Layout.parse_obj, LayoutSpec.parse_obj.
   destruct (name_view E0004 (r_ext o)) as [[Hn Hg] | [Hn [Hg | (e' & Hg & He')]]]; rewrite Hn, Hg; cbn [negb res_bind].
-  - use_alg o. rewrite Ha in Ks.
-    destruct (num_view_bounded (r_ts o) Kb1) as [(ts & Ht & Lt & Ht') | [Ht Ht']]; rewrite Ht, Ht' in *; cbn [res_bind opt_bind]; [|exact I].
-    destruct (num_view_bounded (r_nt o) Kb2) as [(nt & Hq & Lq & Hq') | [Hq Hq']]; rewrite Hq, Hq' in *; cbn [res_bind opt_bind]; [|exact I].
-    destruct (r_short o) as [|n|s|x|]; cbn [get_bool bool_param res_bind opt_bind]; try exact I.
-    + apply validate_hashed; auto; try discriminate.
-    + apply validate_hashed; auto; try discriminate. destruct x; cbn [andb]; [exact Ks|reflexivity].
+  - use_alg o.
+    use_num0 (r_ts o) ts; [|exact I].
+    use_num0 (r_nt o) nt; [|destruct (ts <=? 32); exact I].
+    use_bool (r_short o); [|destruct (ts <=? 32); [|exact I]; cbn [opt_bind]; destruct (nt <=? 32); exact I].
+    pose proof (validate_hashed dbg E0004 a ts nt x no_delim filler (or_intror eq_refl)) as V.
+    destruct (ts <=? 32); cbn [opt_bind andb] in *; [|apply V; discriminate].
+    destruct (nt <=? 32); cbn [opt_bind andb] in *; apply V; discriminate.
   - exact I.
   - use_alg o.
-    destruct (num_view_bounded (r_ts o) Kb1) as [(ts & Ht & Lt & Ht') | [Ht Ht']]; rewrite Ht; cbn [res_bind]; [|exact I].
-    destruct (num_view_bounded (r_nt o) Kb2) as [(nt & Hq & Lq & Hq') | [Hq Hq']]; rewrite Hq; cbn [res_bind]; [|exact I].
+    use_num0 (r_ts o) ts; [|exact I].
+    use_num0 (r_nt o) nt; [|exact I].
     use_bool (r_short o). rewrite validate_bad_name by exact He'. exact I.
 Qed.
 
-Lemma new_obj_0003 dbg o : known_c11_cfg E0003 (RawObj o) = false ->
-  new_agrees (new dbg E0003 (RawObj o)) (parse E0003 (RawObj o)).
+Lemma new_obj_0003 dbg o : new_agrees (new dbg E0003 (RawObj o)) (parse E0003 (RawObj o)).
 Proof.
-  unfold known_c11_cfg, c11_cfg_bounds, c11_cfg_short_root, c11_cfg_0007_defaults, c11_cfg_array.
-  rewrite !orb_false_r. intros Kb. apply orb_false_iff in Kb as [Kb1 Kb2].
   unfold new, parse, Layout.parse_obj, LayoutSpec.parse_obj.
   destruct (name_view E0003 (r_ext o)) as [[Hn Hg] | [Hn [Hg | (e' & Hg & He')]]]; rewrite Hn, Hg; cbn [negb res_bind].
   - use_alg o.
-    destruct (num_view_bounded (r_ts o) Kb1) as [(ts & Ht & Lt & Ht') | [Ht Ht']]; rewrite Ht, Ht'; cbn [res_bind opt_bind]; [|exact I].
-    destruct (num_view_bounded (r_nt o) Kb2) as [(nt & Hq & Lq & Hq') | [Hq Hq']]; rewrite Hq, Hq'; cbn [res_bind opt_bind]; [|exact I].
-    apply validate_hashed; auto.
+    use_num0 (r_ts o) ts; [|exact I].
+    use_num0 (r_nt o) nt; [|destruct (ts <=? 32); exact I].
+    pose proof (validate_hashed dbg E0003 a ts nt false no_delim filler (or_introl eq_refl) (fun _ => eq_refl)) as V.
+    destruct (ts <=? 32); cbn [opt_bind andb] in *; [|exact V].
+    destruct (nt <=? 32); cbn [opt_bind andb] in *; exact V.
   - exact I.
   - use_alg o.
-    destruct (num_view_bounded (r_ts o) Kb1) as [(ts & Ht & Lt & Ht') | [Ht Ht']]; rewrite Ht; cbn [res_bind]; [|exact I].
-    destruct (num_view_bounded (r_nt o) Kb2) as [(nt & Hq & Lq & Hq') | [Hq Hq']]; rewrite Hq; cbn [res_bind]; [|exact I].
+    use_num0 (r_ts o) ts; [|exact I].
+    use_num0 (r_nt o) nt; [|exact I].
     rewrite validate_bad_name by exact He'. exact I.
 Qed.
 
@@ -280,8 +285,8 @@ Lemma new_obj_0007 dbg o : raw_wf (RawObj o) = true -> cfg_determined E0007 (Raw
   new_agrees (new dbg E0007 (RawObj o)) (parse E0007 (RawObj o)).
 Proof.
   intros W D. apply raw_wf_delim in W. cbn [cfg_determined] in D. apply negb_true_iff in D.
-  unfold known_c11_cfg, c11_cfg_bounds, c11_cfg_short_root, c11_cfg_0007_defaults, c11_cfg_array.
-  rewrite !orb_false_r. cbn [orb]. intros Kd.
+  unfold known_c11_cfg, c11_cfg_0007_defaults, c11_cfg_array.
+  rewrite !orb_false_r. intros Kd.
   unfold new, parse, Layout.parse_obj, LayoutSpec.parse_obj.
   rewrite (get_ext_present E0007) by exact D.
   destruct (name_view E0007 (r_ext o)) as [[Hn Hg] | [Hn [Hg | (e' & Hg & He')]]]; rewrite Hn, Hg; cbn [negb res_bind].
@@ -322,8 +327,8 @@ Proof.
   - destruct e; try (vm_compute; reflexivity); try exact I. discriminate Kn.
   - destruct e.
     + apply new_obj_0002.
-    + now apply new_obj_0003.
-    + now apply new_obj_0004.
+    + apply new_obj_0003.
+    + apply new_obj_0004.
     + now apply new_obj_0006.
     + now apply new_obj_0007.
   - unfold known_c11_cfg in Kn. cbn [c11_cfg_array] in Kn. now rewrite !orb_true_r in Kn.
@@ -350,7 +355,7 @@ Qed.
 (** * what an accepted configuration satisfies (links new to the mapping theorems) *)
 Lemma validate_same dbg c c' : validate dbg c = Ok c' -> c' = c.
 Proof.
-  unfold validate, usize_mul.
+  unfold validate, validate_digest_algorithm, usize_mul.
   repeat match goal with
   | |- context [if ?x then _ else _] => destruct x
   | |- context [match c_ext c with _ => _ end] => destruct (c_ext c)
@@ -378,4 +383,81 @@ Proof.
     destruct (Layout.parse_obj e o) as [c0| |] eqn:P; cbn [res_bind]; try discriminate.
     intros V. pose proof (validate_same _ _ _ V) as ->. split; [unfold cfg_ok; now rewrite V|].
     now apply parse_obj_ext in P.
+Qed.
+
+(** * the repaired classes, for EVERY form of the configuration (object, array, none) *)
+(** the usize product can no longer overflow (fix d1aca14): debug and release builds agree *)
+Lemma validate_dbg_irrelevant c : validate false c = validate true c.
+Proof.
+  unfold validate. destruct (negb (ext_eqb (c_name c) (c_ext c))); [reflexivity|].
+  destruct (c_ext c); try reflexivity;
+    (destruct (validate_tuple_config (c_ts c) (c_nt c)) eqn:V; [|reflexivity]);
+    destruct (validate_tuple_config_inv _ _ V) as (L1 & L2 & _);
+    unfold validate_digest_algorithm; now rewrite !usize_mul_small by assumption.
+Qed.
+
+Lemma new_dbg_irrelevant e r : new false e r = new true e r.
+Proof.
+  unfold new. destruct r as [|o|l|]; try reflexivity.
+  - destruct (Layout.parse_obj e o); cbn [res_bind]; try reflexivity. apply validate_dbg_irrelevant.
+  - destruct (seq_to_obj e l) as [o|]; [|reflexivity].
+    destruct (Layout.parse_obj e o); cbn [res_bind]; try reflexivity. apply validate_dbg_irrelevant.
+Qed.
+
+Lemma new_total dbg e r : new dbg e r <> Panic.
+Proof.
+  assert (G : new true e r <> Panic).
+  { assert (V : forall c, validate true c <> Panic).
+    { intros c. unfold validate. destruct (negb (ext_eqb (c_name c) (c_ext c))); [discriminate|].
+      destruct (c_ext c); try discriminate.
+      - destruct (validate_tuple_config (c_ts c) (c_nt c)) eqn:V; [|discriminate].
+        destruct (validate_tuple_config_inv _ _ V) as (L1 & L2 & _).
+        unfold validate_digest_algorithm. rewrite !usize_mul_small by assumption. cbn [negb res_bind].
+        destruct (alg_hexlen (c_alg c) <? c_ts c * c_nt c); discriminate.
+      - destruct (validate_tuple_config (c_ts c) (c_nt c)) eqn:V; [|discriminate].
+        destruct (validate_tuple_config_inv _ _ V) as (L1 & L2 & _).
+        unfold validate_digest_algorithm. rewrite !usize_mul_small by assumption. cbn [negb res_bind].
+        destruct (alg_hexlen (c_alg c) <? c_ts c * c_nt c); cbn [res_bind]; [discriminate|].
+        destruct (c_short c); [|discriminate].
+        destruct (alg_hexlen (c_alg c) =? c_ts c * c_nt c); discriminate.
+      - destruct (us_bytes (c_delim c)); discriminate.
+      - destruct (us_bytes (c_delim c)); [discriminate|].
+        destruct ((c_ts c <? 1) || (32 <? c_ts c)); [discriminate|].
+        destruct ((c_nt c <? 1) || (32 <? c_nt c)); discriminate. }
+    assert (P : forall o, Layout.parse_obj e o <> Panic).
+    { intros o. unfold Layout.parse_obj. destruct e;
+      repeat match goal with
+      | |- context [res_bind ?x _] =>
+          let E := fresh "E" in destruct x eqn:E; cbn [res_bind]; try discriminate;
+          try (exfalso; revert E; clear;
+               match goal with |- ?f ?v = Panic -> False => destruct v; cbn; repeat match goal with |- context [match ?y with _ => _ end] => destruct y end; discriminate
+                          | |- ?f ?v ?w = Panic -> False => destruct v; cbn; repeat match goal with |- context [match ?y with _ => _ end] => destruct y end; discriminate end)
+      end; discriminate. }
+    unfold new. destruct r as [|o|l|]; try discriminate.
+    - destruct e; discriminate.
+    - destruct (Layout.parse_obj e o) eqn:E; cbn [res_bind]; [apply V|discriminate|now apply P in E].
+    - destruct (seq_to_obj e l) as [o|]; [|discriminate].
+      destruct (Layout.parse_obj e o) eqn:E; cbn [res_bind]; [apply V|discriminate|now apply P in E]. }
+  destruct dbg; [exact G|]. now rewrite new_dbg_irrelevant.
+Qed.
+
+(** whatever the form of the configuration, an accepted 0003/0004 configuration obeys
+    the documents' rules on the numbers (bounds, zero coupling, product, shortObjectRoot) *)
+Lemma accepted_hashed_rules dbg e r c : e = E0003 \/ e = E0004 -> new dbg e r = Ok c ->
+  c_ts c <= 32 /\ c_nt c <= 32 /\
+  tuple_rules (c_alg c) (c_ts c) (c_nt c) (match e with E0004 => c_short c | _ => false end) = true.
+Proof.
+  intros He H. assert (H' : new true e r = Ok c) by (destruct dbg; [exact H|now rewrite <- new_dbg_irrelevant]).
+  destruct (new_ok_cfg_ok e r c H') as [Hok Hc].
+  assert (He' : c_ext c = E0003 \/ c_ext c = E0004) by (rewrite Hc; exact He).
+  destruct (cfg_ok_hashed_full c He' Hok) as (L1 & L2 & Z & P & S).
+  split; [exact L1|]. split; [exact L2|].
+  unfold tuple_rules. rewrite hex_chars_is_hexlen.
+  replace (Bool.eqb (c_ts c =? 0) (c_nt c =? 0)) with true
+    by (destruct (c_ts c =? 0) eqn:A, (c_nt c =? 0) eqn:B; cbn; try reflexivity; exfalso; lia).
+  replace (c_ts c * c_nt c <=? alg_hexlen (c_alg c)) with true by lia. cbn [andb].
+  destruct He as [-> | ->]; [reflexivity|].
+  destruct (c_short c) eqn:SH; [|reflexivity]. cbn [andb].
+  rewrite Hc in S. specialize (S eq_refl eq_refl).
+  replace (c_ts c * c_nt c =? alg_hexlen (c_alg c)) with false by lia. reflexivity.
 Qed.
